@@ -20,6 +20,8 @@ import (
 var tokenEQL = token.EQL
 var tokenLSS = token.LSS
 var tokenADD = token.ADD
+var tokenQUO = token.QUO
+var tokenREM = token.REM
 
 // constValue returns the value of the constant with the
 // dynamic type tag appropriate for c.Type().
